@@ -510,6 +510,49 @@ Example c04_pipeline_disconnect :
   k_s2c (st_cl st 1) = [SPush 1 100 [1; 2]] /\ sv_alive (st_sv st) 1 = true.
 Proof. vm_compute. repeat split. Qed.
 
+(* A DMX frame for a universe that does not exist (never created, or garbage-collected underneath a
+   connected client) is refused, in any state: nothing in the daemon changes (only the ghost log of
+   refused frames grows), an acknowledged send is answered with "Universe doesn't exist", a streamed
+   one with nothing.  The daemon always consults the universe store: there is no per-client
+   shortcut to a universe that could outlive it. *)
+Theorem c04_missing_universe_refused : forall st c rid u d p,
+  find_uni (sv_unis (st_sv st)) u = None ->
+  handle_req st c (RUpdate rid u d p) = (log_rej st c (u, d, p), Some (SFail rid E_UNIVERSE)) /\
+  handle_req st c (RStream u d p) = (log_rej st c (u, d, p), None) /\
+  st_sv (log_rej st c (u, d, p)) = st_sv st /\ st_cl (log_rej st c (u, d, p)) = st_cl st.
+Proof.
+  intros st c rid u d p H. cbn [handle_req]. rewrite H. repeat split.
+Qed.
+Print Assumptions c04_missing_universe_refused.
+
+(* the whole story on the model: client 1 sends to universe 7 (created by client 0's registration),
+   client 0 unregisters, client 1 stays connected but silent for three housekeeping runs (marked,
+   evicted, universe collected), then resumes: the frame is refused with the error, not applied,
+   a fetch reports the universe missing, and a new registration starts from an empty universe *)
+Example c04_collected_then_resumed :
+  let st := run (init_state 2)
+    [OReg 0 7 true; OSrv 0; OCli 0; OSend true false 1 7 (Some 100) [5; 6]; OSrv 1; OCli 1;
+     OReg 0 7 false; OSrv 0; OCli 0; OHK; OHK; OHK;
+     OSend true false 1 7 (Some 100) [5; 6]; OSrv 1] in
+  sv_unis (st_sv st) = [] /\ st_rejected st = [(1, (7, [5; 6], Some 100))] /\
+  st_applied st = [(1, (7, [5; 6], Some 100))] /\
+  snd (step st (OCli 1)) = [EDone 1 3 (Some E_UNIVERSE)] /\ sv_alive (st_sv st) 1 = true.
+Proof. vm_compute. repeat split. Qed.
+
+(* back-pressure on the model (what the driver does for the harness op B): the sink that stopped
+   servicing its connection is dropped by the daemon from the event loop at the first frame whose
+   push cannot be written (no hazard), it is in no sink set afterwards, the well-behaved sink got
+   every frame, the source's frames were all applied *)
+Example c04_backpressure :
+  let st := run (init_state 3)
+    [OReg 2 1 true; OSrv 2; OCli 2; OReg 1 1 true; OSrv 1; OCli 1;
+     ODisc 2; OSend false false 0 1 (Some 100) [9]; OSrv 0; OCli 1;
+     OSend false false 0 1 (Some 100) [9]; OSrv 0; OCli 1] in
+  st_hz st = false /\ sv_alive (st_sv st) 2 = false /\
+  map u_sinks (sv_unis (st_sv st)) = [[1]] /\ map u_buf (sv_unis (st_sv st)) = [[9]] /\
+  length (st_applied st) = 2%nat /\ k_s2c (st_cl st 1) = [].
+Proof. vm_compute. repeat split. Qed.
+
 (* hypotheses of c04_fidelity_partial are satisfiable, with a registered sink *)
 Example c04_fidelity_nonvacuous :
   let st := run (init_state 2) [OReg 0 1 true; OSrv 0] in
